@@ -326,6 +326,9 @@ func twoPkgSpecs() map[string]fileSpec {
 			if swap {
 				a, b = b, a
 			}
+			// request and response of one method from the two packages, in either order
+			out[fmt.Sprintf("%s_-and-%s-in-one-method-swap=%v", name, name, swap)] = fileSpec{Pkg: "a", JSON: swap, Msgs: []string{"Req"}, ExtPkg: name + "_", ExtPkg2: name, Services: []svcSpec{{Name: "Store", Methods: []methodSpec{
+				{Name: "U", In: a, Out: b}, {Name: "C", CS: true, In: a, Out: b}, {Name: "S", SS: true, In: a, Out: b}, {Name: "B", CS: true, SS: true, In: a, Out: b}}}}}
 			out[fmt.Sprintf("%s_-then-%s-swap=%v", name, name, swap)] = fileSpec{Pkg: "a", JSON: !swap, Msgs: []string{"Req"}, ExtPkg: name + "_", ExtPkg2: name, Services: []svcSpec{{Name: "Svc", Methods: []methodSpec{
 				{Name: "First", In: a, Out: "Req"}, {Name: "Mid", SS: true, In: "Req", Out: "Req"}, {Name: "Later", In: b, Out: "Req"}, {Name: "Last", CS: true, SS: true, In: b, Out: b}}}}}
 		}
